@@ -18,6 +18,11 @@ import AsyncsshModel.Gen.C08
     * F2  `sender_spins_zero_pktsize_old`   — a peer advertising maximum packet size 0 made `_flush_send_buf` spin
     * F3  `receiver_window_exceeded_while_paused_old` — while reading was paused the advertised window was not enforced
 
+  One more clause was FALSE when BOTH applications close (fix ae15f0e, found by the life-cycle check C09): data
+  dropped after the local `close()` and the buffer it discards used up the peer's window for good
+  (`mutual_close_deadlock_preCredit`); now they are credited (`window_in_step_until_close_sent`,
+  `dropped_data_is_credited`, `discarded_data_is_credited`, tie `dropped_data_credited_in_code`).
+
   Three more (audit findings D2, D3, D4; repairs e7dbee0, afe8b9e, 9f86e20), outside the byte-level endpoint the
   theorems above are about — in `SSHServerChannel`, in the text layer and in `SSHTunTapChannel`
   (`Model/ChannelVariants.lean`, `Model/ChannelDecode.lean`); the model follows the repaired code, the behaviour
@@ -123,24 +128,29 @@ theorem zero_pktsize_admitted_iff :
 /-! ### receiver side -/
 
 /-- **Receive-window accounting**, for every history of one endpoint against any peer: window + bytes delivered
-    to the session ≥ initial window + Σ WINDOW_ADJUST sent, with equality while the channel may still send. -/
+    to the session + bytes dropped after the local `close()` or discarded by it (`h.dropped`: since fix ae15f0e their
+    window is given back by a WINDOW_ADJUST of their own, and `_recv_window` was never charged for them)
+    ≥ initial window + Σ WINDOW_ADJUST sent, with equality while the channel may still send: every WINDOW_ADJUST
+    gives back bytes the peer had spent, never more. -/
 theorem receiver_accounting (c0 c : Chan) (h : Hist) (evs : List Ev) (hw : WF c0)
     (hr : runChan c0 {} evs = some (c, h)) :
-    c.recvWindow + bufBytes (dataOuts h.dl) ≥ c0.recvWindow + h.adjOut ∧
-    (c.sendChanOpen = true → c.recvWindow + bufBytes (dataOuts h.dl) = c0.recvWindow + h.adjOut) :=
+    c.recvWindow + bufBytes (dataOuts h.dl) + h.dropped ≥ c0.recvWindow + h.adjOut ∧
+    (c.sendChanOpen = true →
+      c.recvWindow + bufBytes (dataOuts h.dl) + h.dropped = c0.recvWindow + h.adjOut) :=
   let a := acct_run evs c0 c0 c {} h (acct_init c0 hw) hr
   ⟨a.recvGe, a.recvEq⟩
 
 /-- **The receiver enforces its window** (unconditional since fix 53cd2ff, paused or not): a DATA packet is
-    accepted only if, together with everything accepted so far — delivered to the session AND still buffered —
-    it fits what was advertised (initial window + Σ WINDOW_ADJUST sent); anything larger is
+    accepted only if, together with everything accepted so far — delivered to the session, still buffered, or
+    dropped / discarded because the application closed — it fits what was advertised (initial window + Σ WINDOW_ADJUST sent); anything larger is
     `ProtocolError('Window exceeded')`. -/
 theorem receiver_enforces_window (c0 c : Chan) (h : Hist) (evs : List Ev) (hw : WF c0)
     (hr : runChan c0 {} evs = some (c, h)) (hopen : c.sendChanOpen = true) (dt : DType) (bs : Bytes) :
-    (((bufBytes (dataOuts h.dl) + bufBytes c.recvBuf + bs.length : Nat) : Int) > c0.recvWindow + h.adjOut →
+    (((bufBytes (dataOuts h.dl) + h.dropped + bufBytes c.recvBuf + bs.length : Nat) : Int) > c0.recvWindow + h.adjOut →
       c.recvState = .opn → typeOk c.readTypes dt = true → step c (.recv (.data dt bs)) = .error .windowExceeded) ∧
     (∀ r, step c (.recv (.data dt bs)) = .ok r →
-      ((bufBytes (dataOuts h.dl) + bufBytes c.recvBuf + bs.length : Nat) : Int) ≤ c0.recvWindow + h.adjOut) := by
+      ((bufBytes (dataOuts h.dl) + h.dropped + bufBytes c.recvBuf + bs.length : Nat) : Int) ≤
+        c0.recvWindow + h.adjOut) := by
   have heq := (receiver_accounting c0 c h evs hw hr).2 hopen
   refine ⟨?_, ?_⟩
   · intro hgt hs ht
@@ -252,6 +262,78 @@ theorem every_byte_eventually_delivered (ca cb : SideCfg) (hc : Compatible ca cb
       tag (dataOuts (s'.hist x.other).dl) = tag (s'.hist x).wr :=
   let g := good_run evs _ s (good_init ca cb hc) h
   all_data_eventually_delivered (sysPot s) s x (Nat.le_refl _) g.inv g.tinv hr hinit hp
+
+/-! ### data dropped after `close()` and data discarded by it are credited (fix ae15f0e) -/
+
+/-- **The sender's window never runs ahead of the receiver's, and stays exactly in step until the receiver's CLOSE
+    is out** — two honest endpoints, every reachable state, each direction `x → x.other`: DATA in flight + the
+    sender's send window + bytes waiting in the receive buffer + WINDOW_ADJUSTs in flight back to the sender
+    ≤ the receiver's `_recv_window`, with EQUALITY as long as the receiver has not sent CLOSE — since fix ae15f0e
+    also after its application called `close()`: what it drops or discards from then on is given back as
+    WINDOW_ADJUST at once, so a peer that is closing too can finish sending.  (A WINDOW_ADJUST only ever gives back
+    what the sender had spent: the left-hand side never exceeds the receiver's window.) -/
+theorem window_in_step_until_close_sent (ca cb : SideCfg) (evs : List Event) (s : Sys)
+    (h : (Sys.init ca cb).run evs = .ok s) (x : Side) :
+    ((bufBytes (dataOf (s.link x.other)) + (s.ep x).sendWindow + bufBytes (s.ep x.other).recvBuf +
+        adjustSum (s.link x) : Nat) : Int) ≤ (s.ep x.other).recvWindow ∧
+    ((s.ep x.other).sendChanOpen = true →
+      ((bufBytes (dataOf (s.link x.other)) + (s.ep x).sendWindow + bufBytes (s.ep x.other).recvBuf +
+        adjustSum (s.link x) : Nat) : Int) = (s.ep x.other).recvWindow) :=
+  let d := (reachable_inv ca cb evs s h).dir x
+  ⟨d.acct, d.acctEq⟩
+
+/-- what `_accept_data` does with data that arrives after the local `close()`: nothing is kept, `_recv_window` is
+    untouched, and a WINDOW_ADJUST of exactly its length goes out — unless the own CLOSE has been sent already -/
+theorem dropped_data_is_credited (c : Chan) (dt : DType) (bs : Bytes) (hne : bs ≠ [])
+    (hl : c.sendState = .closePending ∨ c.sendState = .closed) :
+    acceptData c bs dt = (c, if c.sendChanOpen then [.adjust bs.length] else [], []) := by
+  have hne' : bs.isEmpty = false := by simpa using hne
+  unfold acceptData sendPkt
+  simp [hne', hl]
+
+/-- what `_discard_recv` gives back: the bytes of the buffer it throws away, `_recv_window` untouched -/
+theorem discarded_data_is_credited (c : Chan) :
+    (discardRecv c).2.1 =
+      (if bufBytes c.recvBuf ≠ 0 then (if c.sendChanOpen then [.adjust (bufBytes c.recvBuf)] else []) else []) ∧
+    (discardRecv c).1.recvWindow = c.recvWindow ∧ (discardRecv c).1.recvBuf = [] := by
+  refine ⟨?_, (discardRecv_spec c).recvWindow, (discardRecv_spec c).recvBuf⟩
+  rw [discardRecv_msgs]; rfl
+
+/-- **Tie to the code**: both credits are in `_accept_data` / `_discard_recv`, as the translator finds them -/
+theorem dropped_data_credited_in_code :
+    Gen.C08.dropCreditsWindow = true ∧ Gen.C08.discardCreditsWindow = true := by decide
+
+/-- both ends have 8 bytes to send against windows of 4, both applications call `close()` before reading
+    anything, then everything in flight is delivered -/
+def mutualCloseCfg : SideCfg × SideCfg :=
+  ({ window := 4, pktsize := 32, readTypes := [1], writeTypes := [] },
+   { window := 4, pktsize := 32, readTypes := [], writeTypes := [1] })
+
+def mutualCloseRun : List Event :=
+  [.app .a (.write none [1, 2, 3, 4, 5, 6, 7, 8]), .app .b (.write none [11, 12, 13, 14, 15, 16, 17, 18]),
+   .app .a .close, .app .b .close,
+   .deliver .a, .deliver .b, .deliver .a, .deliver .b, .deliver .a, .deliver .a, .deliver .b, .deliver .b]
+
+/-- **Witness for the code BEFORE fix ae15f0e** (`Sys.runPreCredit`): each side drops the 4 bytes it receives
+    without giving their window back; nothing is in flight any more, both send windows are 0, both still have 4
+    bytes and their CLOSE to send: neither channel is ever closed (`wait_closed()` waits for ever on both ends). -/
+theorem mutual_close_deadlock_preCredit :
+    ∃ s, (Sys.init mutualCloseCfg.1 mutualCloseCfg.2).runPreCredit mutualCloseRun = .ok s ∧
+      s.link .a = [] ∧ s.link .b = [] ∧
+      (s.ep .a).sendState = .closePending ∧ (s.ep .a).sendWindow = 0 ∧ (s.ep .a).sendBuf = [([5, 6, 7, 8], none)] ∧
+      (s.ep .b).sendState = .closePending ∧ (s.ep .b).sendWindow = 0 ∧
+      (s.ep .b).sendBuf = [([15, 16, 17, 18], none)] := by
+  refine ⟨_, rfl, ?_⟩
+  decide +kernel
+
+/-- the same run on the code as it is: the dropped bytes are credited, both sides finish sending and close -/
+theorem mutual_close_completes :
+    ∃ s, (Sys.init mutualCloseCfg.1 mutualCloseCfg.2).run mutualCloseRun = .ok s ∧
+      s.link .a = [] ∧ s.link .b = [] ∧
+      (s.ep .a).sendState = .closed ∧ (s.ep .a).recvState = .closed ∧
+      (s.ep .b).sendState = .closed ∧ (s.ep .b).recvState = .closed := by
+  refine ⟨_, rfl, ?_⟩
+  decide +kernel
 
 /-! ### the reader's pause is honoured (D2) -/
 
